@@ -28,7 +28,9 @@ class Recorder:
 
     def fail(self, clause, case, **kw):
         f = self.clauses[clause]['failures']
-        if len(f) < self.limit:
+        # at most limit/2 records of each kind (raised / wrong value), so that one defect does not hide another
+        kind = 'error' in kw
+        if len([x for x in f if ('error' in x) == kind]) < self.limit // 2:
             f.append({'check': clause, 'case': case, **kw})
         else:
             self.clauses[clause]['more_failures'] = self.clauses[clause].get('more_failures', 0) + 1
